@@ -36,6 +36,29 @@ structure Cfg.Valid (cfg : Cfg) : Prop where
 
 def Cfg.capNs (cfg : Cfg) : Nat := cfg.cap.getD durMax
 
+/-! ## the builder
+
+`ExponentialBackoff::new(initial)` (and `ExponentialRandomBackoff::new(initial, factor)`) start from
+multiplier 2.0 and no maximum; the two public setters `multiplier` and `max_interval` each overwrite
+their own field and nothing else. A configuration is what a *chain* of setters, in any order and with
+any repetition, leaves behind: a left fold. (The initial interval and the randomization factor are
+constructor arguments, there is no setter for them.) -/
+
+inductive Setter
+  | mult (num den : Nat)   -- `.multiplier(num/den)`
+  | cap (ns : Nat)         -- `.max_interval(ns)`
+deriving Repr, DecidableEq
+
+/-- `ExponentialBackoff::new(initial)` -/
+def newCfg (initial : Nat) : Cfg := { initial := initial, num := 2, den := 1, cap := none }
+
+def applySetter (cfg : Cfg) : Setter → Cfg
+  | .mult p q => { cfg with num := p, den := q }
+  | .cap c => { cfg with cap := some c }
+
+/-- the configuration `new(initial).s₁.s₂.…` ends up with -/
+def build (initial : Nat) (chain : List Setter) : Cfg := chain.foldl applySetter (newCfg initial)
+
 /-- `attempt.min(i32::MAX as usize) as i32` -/
 def expo (a : Nat) : Nat := min a i32Max
 
@@ -202,9 +225,34 @@ def natArith : FloatLike where
 
 def kvMerge (hdr op : Kv) : Kv := op ++ hdr
 
+/-- `m<p>:<q>` = `.multiplier(p/q)`, `c<ns>` = `.max_interval(ns)`; anything else is skipped (as the harness does) -/
+def parseSetter (w : String) : Option Setter :=
+  let body := (w.drop 1).toString
+  if w.startsWith "m" then
+    match body.splitOn ":" with
+    | [p, q] =>
+        match p.toNat?, q.toNat? with
+        | some p, some q => some (.mult p q)
+        | _, _ => none
+    | _ => none
+  else if w.startsWith "c" then body.toNat?.map .cap
+  else none
+
+/-- word `chain=s1,s2,…`: the builder chain, left to right -/
+def parseChain (s : String) : List Setter := (s.splitOn ",").filterMap parseSetter
+
+/-- with `chain=`: the fold of the chain; without: the old keys, i.e. `.multiplier(m)` then `.max_interval(cap)` -/
 def parseCfg (kv : Kv) : Cfg :=
-  { initial := kv.nat "initial_ns" 0, num := kv.nat "mult_num" 2, den := kv.nat "mult_den" 1,
-    cap := kv.optNat "cap_ns" }
+  match kv.get "chain" with
+  | some ch => build (kv.nat "initial_ns" 0) (parseChain ch)
+  | none =>
+    { initial := kv.nat "initial_ns" 0, num := kv.nat "mult_num" 2, den := kv.nat "mult_den" 1,
+      cap := kv.optNat "cap_ns" }
+
+/-- `ReconnectPolicy::exponential(initial, max)` / `exponential_random(initial, max, f)`: their own fixed chain
+`.multiplier(2.0).max_interval(max)` (the harness passes `Duration::MAX` when `cap_ns` is absent) -/
+def policyCfg (kv : Kv) : Cfg :=
+  build (kv.nat "initial_ns" 0) [.mult 2 1, .cap ((kv.optNat "cap_ns").getD durMax)]
 
 def parseKind (kv : Kv) : Kind :=
   match kv.str "kind" "exp" with
@@ -212,9 +260,11 @@ def parseKind (kv : Kv) : Kind :=
   | "fixed" => .fixed (kv.nat "initial_ns" 0)
   | "policy_fixed" => .fixed (kv.nat "initial_ns" 0)
   | "rand" => .rand (parseCfg kv) (kv.nat "rf_pct" 50)
-  | "policy_rand" => .rand { parseCfg kv with num := 2, den := 1 } (kv.nat "rf_pct" 50)
-  | "policy_exp" => .exp { parseCfg kv with num := 2, den := 1 }
-  | _ => .exp (parseCfg kv)      -- exp, retry_policy
+  | "retry_policy_rand" => .rand (parseCfg kv) (kv.nat "rf_pct" 50)
+  | "policy_rand_of" => .rand (parseCfg kv) (kv.nat "rf_pct" 50)
+  | "policy_rand" => .rand (policyCfg kv) (kv.nat "rf_pct" 50)
+  | "policy_exp" => .exp (policyCfg kv)
+  | _ => .exp (parseCfg kv)      -- exp, retry_policy, policy_exp_of, policy_custom
 
 def parseObs (ws : List String) : Obs :=
   match ws.find? (·.startsWith "@v=") with
